@@ -21,6 +21,7 @@ func init() {
 		ruleW1(c, "C04.S1d")
 		ruleT3(c, "C04.S6")
 		ruleKind(c, "C04.S7")
+		ruleSlot(c, "C04.S8")
 	}
 }
 
